@@ -166,6 +166,7 @@ def run_pow10(case, part):
                 continue
             for s in (1, -1):
                 check_value(s * x, part, "pow10-neighbour", number_feature(x))
+                check_value([s * x, {"k": [s * x]}], part, "pow10-neighbour", number_feature(x) + "/in-array-and-member", full=False)
         for d in range(100, 1000):
             x = float("%d.%02de%d" % (d // 100, d % 100, k)) if -10 <= k <= 25 else None
             if x is not None:
@@ -190,6 +191,10 @@ def run_ints(case, part):
             vals.add(-(10 ** k) + d)
     for v in sorted(vals):
         check_value(v, part, "int", number_feature(v))
+        # the same number in every POSITION a value can take: array element (first, later, nested), object member, member of an object in an array
+        for wname, wrap in (("array-element", lambda x: [x]), ("later-array-element", lambda x: [1, x]), ("nested-array-element", lambda x: [[x]]), ("member", lambda x: {"k": x}),
+                            ("member-of-object-in-array", lambda x: [{"k": x}]), ("array-in-member", lambda x: {"k": [x, float(x)] if abs(x) < 2 ** 1000 else [x]})):
+            check_value(wrap(v), part, "int", number_feature(v) + "/" + wname, full=False)
     # NaN / infinities must be refused, at top level and nested
     for bad in (math.nan, math.inf, -math.inf, -math.nan):
         for wrap, name in ((lambda x: x, "top"), (lambda x: [x], "list"), (lambda x: {"a": x}, "member"), (lambda x: {"a": [1, {"b": x}]}, "deep")):
